@@ -142,12 +142,26 @@ func (ab *AccessBarrier) doCleanup() {
 			return
 		}
 
-		ab.freeSeqno++
+		atomic.AddUint64(&ab.freeSeqno, 1)
 		verifPoint(VpCleanupBeforeDestruct, unsafe.Pointer(bs))
 		ab.callb(bs.objectRef)
 		ab.freeq.DeleteNode(node, CompareBS, buf2, &ab.freeq.Stats)
 		ab.numFreed++
 	}
+}
+
+// hasReadySession reports whether the oldest terminated session is the next
+// one in close order, i.e. whether a cleanup pass would make progress.
+func (ab *AccessBarrier) hasReadySession(buf *ActionBuffer) bool {
+	iter := ab.freeq.NewIterator(CompareBS, buf)
+	defer iter.Close()
+
+	iter.SeekFirst()
+	if !iter.Valid() {
+		return false
+	}
+	bs := (*BarrierSession)(iter.Get())
+	return bs.seqno == atomic.LoadUint64(&ab.freeSeqno)+1
 }
 
 // Acquire marks enter of an accessor in the skiplist
@@ -186,11 +200,17 @@ func (ab *AccessBarrier) Release(bs *BarrierSession) {
 					panic("unable to insert barrier session into free list")
 				}
 				verifPoint(VpRelEnqueued, unsafe.Pointer(bs))
-				if atomic.CompareAndSwapInt32(&ab.isDestructorRunning, 0, 1) {
+				for atomic.CompareAndSwapInt32(&ab.isDestructorRunning, 0, 1) {
 					ab.doCleanup()
 					verifPoint(VpRelCleanupDone, unsafe.Pointer(bs))
 					atomic.CompareAndSwapInt32(&ab.isDestructorRunning, 1, 0)
 					verifPoint(VpRelUnlocked, unsafe.Pointer(bs))
+					// A session that terminated while the cleanup above was
+					// running found the try-lock taken and left. Pick it up now
+					// instead of leaving it pending until some future flush.
+					if !ab.hasReadySession(buf) {
+						break
+					}
 				}
 			}
 		} else if liveCount < 0 || liveCount == barrierFlushOffset-1 {
